@@ -311,3 +311,22 @@ Definition run_grid (prefix : list Z) (segs : list (list Z)) (k : Z) : V :=
 (* expected side of a grid case: indices into a table of distinct results *)
 Definition Vpick (table : list (list Z)) (idx : list Z) : V :=
   VL (map (fun i => VS (nth (Z.to_nat i) table [])) idx).
+
+(* compact notation for a grid result: [init] slashes, then the segments
+   with the given indices in [segs] joined by '/' *)
+Definition seg_path (segs : list (list Z)) (init : Z) (idx : list Z) : list Z :=
+  repeat 47 (Z.to_nat init) ++
+  join_slash (map (fun i => nth (Z.to_nat i) segs []) idx).
+
+(* the application on every grid continuation of [prefix] *)
+Definition run_serve_grid (t : list (list Z * node))
+           (d : list (list Z * list (list Z)))
+           (env_root : option (list Z)) (attr_root : list Z)
+           (env_index : option (list Z)) (attr_index : bool)
+           (debug : bool) (method prefix : list Z)
+           (segs : list (list Z)) (k : Z) : V :=
+  VL (map (fun tl => run_serve t d env_root attr_root env_index attr_index
+                               debug method (prefix ++ tl))
+          (tails segs (Z.to_nat k))).
+Definition Vpickv (table : list V) (idx : list Z) : V :=
+  VL (map (fun i => nth (Z.to_nat i) table VN) idx).
